@@ -325,7 +325,18 @@ def qq : Nat → Pos → Env → Expr → SS → R Value
     | .btup xs => match qqList f cur env xs s with | .ok vs s' => .ok (.tuple vs true) s' | .err v p s' => .err v p s' | .brk v s' => .brk v s' | .stop w => .stop w
     | .lit v => .ok v s
     | .sym x => .ok (.sym x) s
-    | _ => .stop "quasiquote of mutable literal"
+    | .arr xs =>
+      match qqList f cur env xs s with
+      | .ok vs s' => let (v, st') := allocV s'.st (.arr vs.toArray) Value.arr; .ok v { s' with st := st' }
+      | .err v p s' => .err v p s' | .brk v s' => .brk v s' | .stop w => .stop w
+    | .tbl xs =>
+      match qqList f cur env xs s with
+      | .ok vs s' => liftP (mkTablePairs vs) cur s' (fun kvs => let (v, st') := allocV s'.st (.tbl kvs) Value.tbl; .ok v { s' with st := st' })
+      | .err v p s' => .err v p s' | .brk v s' => .brk v s' | .stop w => .stop w
+    | .stc xs =>
+      match qqList f cur env xs s with
+      | .ok vs s' => .ok (mkStruct s'.st.heap vs) s'
+      | .err v p s' => .err v p s' | .brk v s' => .brk v s' | .stop w => .stop w
 
 def qqList : Nat → Pos → Env → List Expr → SS → R (List Value)
   | 0, _, _, _, _ => .stop "fuel"
